@@ -118,8 +118,14 @@ def case_strategy(draw, thorough=False):
         if n > 2 and pct(35):
             i = draw(st.integers(1, n - 1))
             sib = gen.siblings_after(idx, i)
+            ln = draw(st.integers(2, 3))
+            # windows that cover a complete CASE/WHERE branch body (regression shape of fix 78cd4a1) get extra weight
+            whole = [e['i'] for e in idx if e['sub'] is not None and e['pos'] == 0 and 1 <= len(gen.siblings_after(idx, e['i'])) <= 2]
+            if whole and pct(25):
+                i = draw(st.sampled_from(whole))
+                sib = gen.siblings_after(idx, i)
+                ln = 1 + len(sib)
             if sib:
-                ln = draw(st.integers(2, 3))
                 win = [i] + sib[:ln - 1]
                 ok = all(not idx[w]['elif_child'] and _dj(idx[w]['d']) not in elif_descs for w in win)
                 if ok:
